@@ -39,6 +39,7 @@ inductive Class where
   | nonrecursiveChild   -- write strictly below a non-recursive read-only path
   | negativeIndex       -- index segments compared as written: `[-1]` vs `[1]` alias at run time
   | coercion            -- write through a container of the other type replaces an ancestor
+  | removeShift         -- removing an array element moves the later elements: `del(.a[0])` vs `.a[1]`
   | unknown
   deriving DecidableEq, Repr
 
@@ -52,10 +53,20 @@ def hasIndex : Path → Bool
   | .index _ :: _ => true
   | .field _ :: rest => hasIndex rest
 
-/-- classify a violated read-only entry given the (accepted) write paths of the same target -/
-def classify (ro : RO) (writes : List Path) : Class :=
+/-- a removal at `w` can take an element out of an array through which `r` passes by a later (or,
+    when compaction drops the emptied element, the same) index: `w` and `r` agree up to a position
+    where `w` holds an index not above the one `r` holds there -/
+def shiftsPast : Path → Path → Bool
+  | .index i :: _, .index j :: _ => decide (i ≤ j)
+  | s :: w, t :: r => decide (s = t) && shiftsPast w r
+  | _, _ => false
+
+/-- classify a violated read-only entry given the (accepted) write paths (inserts and removals) and
+    the removal paths of the same target -/
+def classify (ro : RO) (writes : List Path) (removals : List Path := []) : Class :=
   if !ro.recursive && writes.any (fun w => startsWith w ro.path && w != ro.path) then .nonrecursiveChild
   else if hasNeg ro.path || writes.any hasNeg then .negativeIndex
+  else if removals.any (fun w => shiftsPast w ro.path) then .removeShift
   else if hasIndex ro.path || writes.any hasIndex then .coercion
   else .unknown
 
